@@ -103,6 +103,9 @@ func (c10) Gen(rng *rand.Rand, tier string, k int) *Case {
 		}
 	}
 	c.Cap = rng.Intn(3)
+	if rng.Intn(6) == 0 {
+		c.Cap = 3 + rng.Intn(6)
+	}
 	if c.Impl == "sql" && rng.Intn(4) == 0 {
 		// fault-injecting configuration: the database rejects the k-th INSERT of the history
 		c.Faults = append(c.Faults, FaultSpec{Kind: "sql-exec-error", At: 1 + rng.Intn(8)})
@@ -313,8 +316,19 @@ func (c10) Run(c *Case, st *Stats) []Violation {
 						st.Faults["snapshot-delivered-twice-in-a-row"]++
 					}
 					ch := make(chan *asset.Snapshot, c.Cap)
+					pre := 0
+					if op.Seed%3 == 0 {
+						// the caller has queued what fits into the channel before it calls Append
+						for pre < len(snaps) && pre < c.Cap {
+							ch <- snaps[pre]
+							pre++
+						}
+						if pre > 0 {
+							st.Faults["stream-with-values-queued-before-the-call"]++
+						}
+					}
 					simrt.GoKind("prod", func() {
-						for _, v := range snaps {
+						for _, v := range snaps[pre:] {
 							prodYield()
 							ch <- v
 						}
